@@ -20,6 +20,7 @@
    of the tree is argued in DESIGN 5.1; the bitfield part is C08_replay_exact); the composition with
    Hypercore::new over all four stores is decided on every run by tools/c02.py, which recovers every crash
    point of every generated history on the crate and on the model under the before-or-after oracle. *)
+From HC Require Import SoundCoreLib SoundCore ReplicaDisk1 ReplicaDisk2 ReplicaDisk3 ReplicaDisk4.
 From HC Require Import ClearRefine Unified1 Unified3 CrashClear1 CrashClear2 CrashClear3 CrashClear4.
 From HC Require Import Base NMap Codec CodecFacts Crypto Storage Bitfield Oplog OplogFacts StorageFacts Crash.
 From HC Require Import FlatTree Merkle Core Refine Reopen CrashCore1 CrashCore2 CrashCore3 ReadOnly.
@@ -588,6 +589,91 @@ Theorem C02_creation_every_cut_recovers :
                   FInv cr c2 dk [] (fun _ : N => false) /\ c_keypair c2 = kp))).
 Proof. exact creation_cut_recovers. Qed.
 
+Theorem C02_proof_application_every_cut :
+  forall cr : crypto,
+         crc_ok cr ->
+         (forall x : bytes, Datatypes.length (cr_hash cr x) = 32%nat) ->
+         (forall x : bytes, all_zero (cr_hash cr x) = false) ->
+         (forall x : bytes, bytes_ok (cr_hash cr x) = true) ->
+         forall bs : list bytes,
+         writer_fits bs ->
+         forall (f : option bool) (pf : proof) (c : core) (d : disk) (j : list sop) 
+           (ev : list event) (H : N -> bool) (c' : core) (w' : world),
+         RDInv cr bs c d H ->
+         rd_proof_ok pf ->
+         core_apply_proof cr f pf c {| w_disk := d; w_journal := j; w_events := ev |} = (c', w', Ok true) ->
+         (let pk := kp_public (c_keypair c) in
+          let H' := hold H (p_block pf) in
+          exists (pre : list sop) (off : N) (fr : bytes) (fl : list sop),
+            w_journal w' = rev (pre ++ SW Oplog off fr :: fl) ++ j /\
+            Datatypes.length pre = commit_point pf /\
+            (forall o : sop, In o pre -> sop_store o = Data) /\
+            apply_sops d (pre ++ SW Oplog off fr :: fl) = Some (w_disk w') /\
+            RDInv cr bs c' (w_disk w') H' /\
+            (forall k : nat,
+             exists dk : disk,
+               apply_sops d (firstn k (pre ++ SW Oplog off fr :: fl)) = Some dk /\
+               (if (k <=? commit_point pf)%nat
+                then RDisk cr bs pk dk H (t_length (c_tree c))
+                else RDisk cr bs pk dk H' (t_length (c_tree c'))))) \/
+         Sound.some_collision cr \/ forged_signature cr bs (kp_public (c_keypair c)).
+Proof. exact apply_crash_cuts. Qed.
+
+Theorem C02_proof_application_every_cut_recovers :
+  forall cr : crypto,
+         crc_ok cr ->
+         (forall x : bytes, Datatypes.length (cr_hash cr x) = 32%nat) ->
+         (forall x : bytes, all_zero (cr_hash cr x) = false) ->
+         (forall x : bytes, bytes_ok (cr_hash cr x) = true) ->
+         forall bs : list bytes,
+         writer_fits bs ->
+         forall (f : option bool) (pf : proof) (c : core) (d : disk) (j : list sop) 
+           (ev : list event) (H : N -> bool) (c' : core) (w' : world),
+         RDInv cr bs c d H ->
+         rd_proof_ok pf ->
+         core_apply_proof cr f pf c {| w_disk := d; w_journal := j; w_events := ev |} = (c', w', Ok true) ->
+         (exists ops : list sop,
+            w_journal w' = rev ops ++ j /\
+            apply_sops d ops = Some (w_disk w') /\
+            (forall k : nat,
+             exists dk : disk,
+               apply_sops d (firstn k ops) = Some dk /\
+               (exists (c'' : core) (d'' : disk) (rops : list sop),
+                  core_open cr None true dk = (d'', rops, Ok c'') /\
+                  c_keypair c'' = c_keypair c /\
+                  (if (k <=? commit_point pf)%nat
+                   then
+                    RDInv cr bs c'' d'' H /\
+                    obs_replica bs c'' d'' H (t_length (c_tree c)) /\
+                    t_length (c_tree c'') = t_length (c_tree c)
+                   else
+                    RDInv cr bs c'' d'' (hold H (p_block pf)) /\
+                    obs_replica bs c'' d'' (hold H (p_block pf)) (t_length (c_tree c')) /\
+                    t_length (c_tree c'') = t_length (c_tree c'))))) \/
+         Sound.some_collision cr \/ forged_signature cr bs (kp_public (c_keypair c)).
+Proof. exact apply_crash_recovers. Qed.
+
+Theorem C02_replica_crash_disk_reopens :
+  forall cr : crypto,
+         crc_ok cr ->
+         (forall x : bytes, Datatypes.length (cr_hash cr x) = 32%nat) ->
+         (forall x : bytes, all_zero (cr_hash cr x) = false) ->
+         (forall x : bytes, bytes_ok (cr_hash cr x) = true) ->
+         forall bs : list bytes,
+         writer_fits bs ->
+         forall (pk : bytes) (d : disk) (H : N -> bool) (r : N),
+         RDisk cr bs pk d H r ->
+         exists (c' : core) (d' : disk) (ops : list sop),
+           core_open cr None true d = (d', ops, Ok c') /\
+           RDInv cr bs c' d' H /\
+           t_length (c_tree c') = r /\
+           c_keypair c' = {| kp_public := pk; kp_secret := None |} /\
+           c_skip c' = 0 /\
+           d_tree d' = d_tree d /\
+           d_data d' = d_data d /\
+           d_bitfield d' = d_bitfield d /\ (ops = [] /\ d' = d \/ ops = [ST Oplog ENTRIES_OFFSET]).
+Proof. exact reopen_RDisk. Qed.
+
 Print Assumptions C02_stable_state_reopens.
 Print Assumptions C02_append_every_cut.
 Print Assumptions C02_flush_every_cut.
@@ -624,3 +710,6 @@ Print Assumptions CrashClear3.toy_every_cut_of_a_flushing_clear.
 Print Assumptions CrashClear3.toy_every_cut_of_a_truncating_clear.
 Print Assumptions CrashClear4.toy_creation_cuts.
 Print Assumptions ReadOnly.toy_read_only_crash.
+Print Assumptions C02_proof_application_every_cut.
+Print Assumptions C02_proof_application_every_cut_recovers.
+Print Assumptions C02_replica_crash_disk_reopens.
